@@ -858,6 +858,17 @@ class FunctionRun:
         inv = spec.invariant if spec else []
         for gname in self.c.ghosts:
             st.env['_e%d_%s' % (k, gname)] = st.env[gname]      # value of each ghost at this activation's entry
+        # the container this activation iterates over, under a name of its own (`_itK`): the code may re-bind the variable it came from
+        base_expr = s.iter
+        if isinstance(base_expr, ast.Call) and isinstance(base_expr.func, ast.Attribute) and base_expr.func.attr in ('items', 'keys', 'values') \
+                and not base_expr.args:
+            base_expr = base_expr.func.value
+        try:
+            base_val = self.ev(base_expr, st)
+            if isinstance(base_val, Val):
+                st.env['_it%d' % k] = base_val
+        except Unsupported:
+            pass
         # 1. invariant on entry
         st.env[ghost] = Val(TInt, z3.IntVal(0))
         for j, e in enumerate(inv):
